@@ -280,8 +280,33 @@ def classify_loop(prog, an, next_bb):
         return False, "next: hash iterator advanced outside a loop (selection by position)"
     # innermost loop containing the call
     loop = min((body.natural_loop(t, h) for t, h in loops), key=len)
+    head = min(((body.natural_loop(t, h), h) for t, h in loops), key=lambda x: len(x[0]))[1]
     sy = Sym(prog, an, slice_param=99)
     problems = []
+    # slot stores: per written slot (same index expression) there must be a test-and-set marker -- a store guarded by a
+    # test of the same slot of its own array whose other edge leaves with Err -- that cannot be skipped once the test
+    # passed; the other stores to that slot may then be conditional.  (A data store that is itself the marker but is
+    # skipped for some values leaves the slot unset: which of two colliding keys is rejected then depends on the
+    # iteration order of the hash map.)
+    stores = []
+    for l in range(len(body.locals)):
+        for (bi, si, st) in an.terms.defs.partial[l]:
+            if si == "t" or st["k"] != "assign" or bi not in loop:
+                continue
+            if any(e["k"] == "index" for e in st["p"]["pr"]) and not any(e["k"] == "deref" for e in st["p"]["pr"]):
+                stores.append((l, bi, st))
+    by_index = {}
+    for (l, bi, st) in stores:
+        idx = tuple(sy.name(an.terms.local(e["l"])) for e in st["p"]["pr"] if e["k"] == "index")
+        by_index.setdefault(idx, []).append((l, bi, st))
+    for idx, group in sorted(by_index.items()):
+        markers = [(l, bi, st) for (l, bi, st) in group if slot_store_guarded(an, sy, bi, st)[0]]
+        tyname = pp.ty(body.locals[group[0][0]]["ty"])[:40]
+        if not markers:
+            problems.append("store into %s: %s" % (tyname, slot_store_guarded(an, sy, group[0][1], group[0][2])[1]))
+        elif all(skippable(body, an, loop, head, l, bi) for (l, bi, st) in markers):
+            problems.append("store into %s: after the duplicate test passes the slot can stay unset (a path reaches the next iteration without the store), so which of two "
+                            "entries that map to the same slot is rejected depends on the iteration order" % tyname)
     defined_in_loop = set()
     for bi in loop:
         for s in body.blocks[bi]["s"]:
@@ -301,10 +326,6 @@ def classify_loop(prog, an, next_bb):
             if s["k"] != "assign":
                 continue
             p = s["p"]
-            if any(e["k"] == "index" for e in p["pr"]) and not any(e["k"] == "deref" for e in p["pr"]):
-                ok, why = slot_store_guarded(an, sy, bi, s)
-                if not ok:
-                    problems.append("store into %s: %s" % (pp.ty(body.locals[p["l"]]["ty"])[:40], why))
         t = blk["t"]
         if t["k"] == "call":
             s_ = short(cname(t))
